@@ -168,6 +168,11 @@ def run(index: RepoIndex, rep) -> None:
     # a door is one object in one cell: no two cells share it (C03.R8)
     from .c03 import one_object_per_cell
     one_object_per_cell(index, rep, 'C10.R9')
+    rep.rule('C10.R10', 'the effect of an action on a door or box reaches the environment: step '
+             'installs the state its transition produced on every path (C04.R1, C12.R5)',
+             floor=2)
+    from .c04 import step_installs
+    step_installs(index, rep, 'C10.R10')
     rep.rule('C10.R6', 'no cell store of pickndrop can land on a Door or a Box (only actuation '
              'affects them)', floor=1)
     from ..dynmodel import FRONT, cell, describe_world
